@@ -16,16 +16,16 @@ LEVEL = 'model_checking'
 TECHNIQUE = ('bounded exhaustive enumeration of (container kind, length, slice bounds / index, new elements, layout, entry point) on the '
              'real put/put_slice/view/attribute code with a Python list as reference model on every case; the whole resulting '
              'program is compared structurally with the model rendered through a witness template and parsed by CPython')
-LEVEL_TEXT = ('39 container kinds (every list-like field category and the virtual fields _all/_args/_bases/_body) x lengths 0..3 x all '
-              'bounds in -(n+2)..n+2 and "end" x 0..2 new elements x 2 layouts x 9 entry points are executed on the real code and '
+LEVEL_TEXT = ('43 container kinds (every list-like field category and the virtual fields _all/_args/_bases/_body) x lengths 0..3 x all '
+              'bounds in -(n+2)..n+2 and "end" x 0..2 new elements x 3 layouts x 9 entry points are executed on the real code and '
               'compared with list semantics; refusals of requests whose model result is valid Python are reported')
 LEVEL_NOTE = ('trusted: Python list / slice.indices semantics, CPython ast; documented refusals: NotImplementedError, minimum lengths '
               'under norm=True, ordering rules of arguments/arglikes (the alphabet uses order-neutral elements)')
 RULE = ('enum: case = (kind, n, start, stop, m, layout, entry); non-trivial = distinct cases whose model result differs from the old '
         'list; states = distinct start/result sources; traces = cases compared with the list model')
 ASSUMPTIONS = ['norm=True, pars auto', 'elements are simple names / minimal statements so that only container semantics is exercised']
-BOUNDS = {'quick': '39 kinds (6 with multi-byte elements), n in 0..3, all (start, stop) in {-(n+2)..n+2, end}^2, m in 0..2, bare layout, entries put_slice/view-slice/put(one=False); '
-                   'single-index put/delete/insert/append/extend/prepend/prextend/attribute assignment; multi-line layout for bounds in 0..n',
+BOUNDS = {'quick': '43 kinds (6 with multi-byte elements, 4 mixing positional/keyword/starred arguments), n in 0..3, all (start, stop) in {-(n+2)..n+2, end}^2, m in 0..2, bare layout, entries put_slice/view-slice/put(one=False); '
+                   'single-index put/delete/insert/append/extend/prepend/prextend/attribute assignment; multi-line and stair (continuation line at a smaller column) layouts for bounds in 0..n',
           'thorough': 'n up to 4, all entries x both layouts for every bound pair, fst and ast code forms'}
 
 
@@ -110,6 +110,13 @@ KINDS += [
     Kind('Dict._all(mb)', lambda e: 'é = {' + _csv(e) + '}', PV, '_all', ["'é': e0", "'ü': e1", "'ñ': e2", "'ö': e3"], ["'δ': x0", 'j1: x1'],
          lambda e: '{' + _csv(e) + '}'),
 ]
+MIXA = ['e0', 'a1=e1', '*e2', '**e3']  # positional, keyword, starred after the keyword, double-starred: merged by source position
+KINDS += [
+    Kind('Call._args(mixed,kw)', lambda e: f'f({_csv(e)})', PV, '_args', MIXA, ['b0=x0', 'b1=x1'], _csv),
+    Kind('Call._args(mixed,pos)', lambda e: f'f({_csv(e)})', PV, '_args', MIXA, ['x0', '*x1'], _csv),
+    Kind('ClassDef._bases(mixed,kw)', lambda e: f'class C({_csv(e)}): pass' if e else 'class C: pass', P, '_bases', MIXA, ['b0=x0', 'b1=x1'], _csv),
+    Kind('ClassDef._bases(mixed,pos)', lambda e: f'class C({_csv(e)}): pass' if e else 'class C: pass', P, '_bases', MIXA, ['x0', '*x1'], _csv),
+]
 KIND = {k.name: k for k in KINDS}
 
 
@@ -127,6 +134,18 @@ def model_slice(n, start, stop):
 def layout(src, lay):
     if lay == 'bare':
         return src
+    if lay == 'stair':  # first two elements on the opening line, the rest on the next line at a *smaller* column
+        for o, c in (('[', ']'), ('(', ')'), ('{', '}')):
+            i = src.find(o)
+            j = src.rfind(c)
+            if i >= 0 and j > i and '\n' not in src and src[i:j].count(',') >= 2:
+                parts = [p.strip() for p in src[i + 1:j].split(',') if p.strip()]
+                new = src[:i + 1] + ', '.join(parts[:2]) + ',\n ' + ', '.join(parts[2:]) + src[j:]
+                t = O.try_parse(new)
+                if t is not None and O.dump(t) == O.dump(ast.parse(src)):
+                    return new
+                return None
+        return None
     # multi-line with comments: only for bracketed comma lists on one line
     for o, c in (('[', ']'), ('(', ')'), ('{', '}')):
         i = src.find(o)
@@ -215,7 +234,7 @@ def run_slice_cases(fst, kind, n, res, tier):
     base = kind.tmpl(old)
     if n < kind.minlen or O.try_parse(base) is None:
         return
-    for lay in ('bare', 'ml'):
+    for lay in ('bare', 'ml', 'stair'):
         src = layout(base, lay)
         if src is None:
             continue
